@@ -1,6 +1,7 @@
 """Command-line driver shared by all property checks."""
 
 import argparse
+import functools
 import importlib
 import multiprocessing
 import os
@@ -13,6 +14,19 @@ from .report import AnalysisError, Evidence, Finding, finish
 from .arr import Unsupported
 
 FORBIDDEN = ("jax", "numpy", "equinox", "ginjax", "optax", "scipy")
+
+
+def _guarded(fn, item):
+    from .interp import StepLimit
+
+    try:
+        return fn(item)
+    except Unsupported as e:
+        return {"__unsupported__": "unmodelled construct: %s" % e}
+    except StepLimit as e:
+        return {"__unsupported__": "step limit: %s" % e}
+    except RecursionError as e:
+        return {"__unsupported__": "recursion limit"}
 
 
 class Ctx(object):
@@ -28,6 +42,7 @@ class Ctx(object):
         self.errors = []
         self.rng = random.Random(seed)
         self._pm = None
+        self.undecided = 0
 
     @property
     def pm(self):
@@ -45,6 +60,22 @@ class Ctx(object):
 
     def error(self, msg):
         self.errors.append(msg)
+
+    def pairs(self, fn, items, chunk=None):
+        """(item, result) pairs for the obligations the analyser could decide; an obligation that meets an
+        unmodelled construct is recorded as an analysis error (exit 2 unless a violation is found elsewhere)."""
+        items = list(items)
+        res = self.pmap(functools.partial(_guarded, fn), items, chunk)
+        out = []
+        for it, r in zip(items, res):
+            if isinstance(r, dict) and r.get("__unsupported__"):
+                self.undecided += 1
+                msg = "undecided obligation: %s" % r["__unsupported__"]
+                if msg not in self.errors and len(self.errors) < 20:
+                    self.errors.append(msg)
+                continue
+            out.append((it, r))
+        return out
 
     def pmap(self, fn, items, chunk=None):
         """Map a top-level function over items, in parallel in the thorough tier."""
